@@ -287,3 +287,121 @@ func init() {
 			return "unit-" + strings.TrimLeft(s, "-0123456789")
 		}})
 }
+
+// ---------------------------------------------------------------- dur.literal: duration literals inside queries
+
+// exactDuration: the exact sum of a duration spelling (unsigned, the grammar of durGrammar), and whether
+// it fits in int64 nanoseconds.
+func exactDuration(s string) (sum *big.Int, inGrammar, fits bool) {
+	m := durGrammar.FindStringSubmatch(s)
+	if m == nil || m[1] == "-" {
+		return nil, false, false
+	}
+	sum = new(big.Int)
+	for _, c := range durComp.FindAllStringSubmatch(m[2], -1) {
+		n, _ := new(big.Int).SetString(c[1], 10)
+		var mult int64
+		for _, u := range durUnits {
+			if u.s == c[2] {
+				mult = u.m
+			}
+		}
+		sum.Add(sum, n.Mul(n, big.NewInt(mult)))
+	}
+	return sum, true, sum.Cmp(big.NewInt(math.MaxInt64)) <= 0
+}
+
+func genDurLiteral(r *rand.Rand, n int, emit func(args ...string)) {
+	e := func(s string) { emit(encStr(s), "p:", encLower(s)) }
+	for _, s := range []string{"1s", "3s7µ", "1ms500µ", "2h10µ5ns", "1µ2u3µ", "1w1d1h1m1s1ms1µ1u1ns", "0s", "00s", "5u", "5µ", "15250w", "15251w", "15250w15250w", "9223372036854775807ns", "9223372036854775807ns1ns", "9223372036854775808ns", "2562047h47m16s854ms775u807ns", "2562047h47m16s854ms775u808ns", "1s1", "1µs", "1us", "1S", "1.5s", "10m5"} {
+		e(s)
+	}
+	for i := 0; i < n; i++ {
+		switch r.Intn(8) {
+		case 0:
+			e(randCompositeDuration(r))
+		case 1: // steered to the overflow boundary: MaxInt64 split over two or three components
+			u := durUnits[r.Intn(len(durUnits))]
+			q := math.MaxInt64 / u.m
+			rest := math.MaxInt64 - q*u.m + int64(r.Intn(3)) - 1
+			if rest < 0 {
+				rest = 0
+			}
+			e(fmt.Sprintf("%d%s%dns", q, u.s, rest))
+		default:
+			e(randValidCompositeDuration(r))
+		}
+	}
+}
+
+// propDurLiteral: a duration literal written in a query (as an expression, as a GROUP BY interval, as the
+// DURATION of a retention policy) yields exactly the sum of its components, or the query is rejected; a
+// sum beyond int64 nanoseconds is rejected; the literal prints as a duration that parses back to it.
+func propDurLiteral(args []string) string {
+	s, err := decStr(args[0])
+	if err != nil {
+		return "skip"
+	}
+	sum, inGrammar, fits := exactDuration(s)
+	check := func(where string, got int64, perr error) string {
+		switch {
+		case perr != nil:
+			return ""
+		case !inGrammar:
+			return fmt.Sprintf("%s: %q is accepted as the duration %d although it is outside the duration grammar", where, s, got)
+		case !fits || sum.Cmp(big.NewInt(got)) != 0:
+			return fmt.Sprintf("%s: %q yields %d, the exact sum is %s", where, s, got, sum)
+		}
+		return ""
+	}
+	// as an expression
+	e, perr := influxql.ParseExpr(s)
+	if perr == nil {
+		switch lit := e.(type) {
+		case *influxql.DurationLiteral:
+			if msg := check("ParseExpr", int64(lit.Val), nil); msg != "" {
+				return msg
+			}
+			back, berr := influxql.ParseExpr(lit.String())
+			if bl, ok := back.(*influxql.DurationLiteral); berr != nil || !ok || bl.Val != lit.Val {
+				return fmt.Sprintf("ParseExpr(%q) prints as %q, which does not parse back to it", s, lit.String())
+			}
+		default:
+			if inGrammar {
+				return fmt.Sprintf("ParseExpr(%q) is %T, not a duration literal", s, e)
+			}
+		}
+	} else if inGrammar && fits && sum.Sign() >= 0 {
+		return fmt.Sprintf("ParseExpr(%q) is rejected (%v) although the sum %s fits", s, perr, sum)
+	}
+	// as a GROUP BY interval
+	if st, perr := influxql.ParseStatement("SELECT mean(v) FROM m WHERE time > 0 GROUP BY time(" + s + ")"); perr == nil {
+		if sel, ok := st.(*influxql.SelectStatement); ok {
+			if d, derr := sel.GroupByInterval(); derr == nil {
+				if msg := check("GROUP BY time()", int64(d), nil); msg != "" {
+					return msg
+				}
+			}
+		}
+	} else if inGrammar && fits && sum.Sign() > 0 {
+		return fmt.Sprintf("GROUP BY time(%s) is rejected (%v) although the sum %s fits", s, perr, sum)
+	}
+	// as a retention policy duration (minimum 1h, or 0)
+	if st, perr := influxql.ParseStatement("CREATE RETENTION POLICY p ON d DURATION " + s + " REPLICATION 1"); perr == nil {
+		if c, ok := st.(*influxql.CreateRetentionPolicyStatement); ok {
+			if msg := check("CREATE RETENTION POLICY … DURATION", int64(c.Duration), nil); msg != "" {
+				return msg
+			}
+		}
+	}
+	return ""
+}
+
+func init() {
+	register(&stream{name: "dur.literal", gen: genDurLiteral, impl: implParseExpr, prop: propDurLiteral,
+		class: func(args []string, out string) string { return out[:2] },
+		nontrivial: func(args []string, out string) bool {
+			s, _ := decStr(args[0])
+			return len(durComp.FindAllString(s, -1)) >= 2
+		}})
+}
